@@ -144,6 +144,10 @@ class timemodel(_coreiterative):
         """
         pass #raise NameError("not implemented for virtual class")
 
+    def _reset_history(self):
+        """forget data kept from previous steps (multistep integrators)"""
+        pass
+
     def add_res(self, f, dt, subtimecoef=1.0):
         """
 
@@ -231,6 +235,7 @@ class timemodel(_coreiterative):
             stop=None, flush=None, monitors={}, directives={}):
         """ """
         self.reset(itstart=0) # reset cputime and nit
+        self._reset_history() # a new solve does not continue a previous integration
         self._remove_monitor_output(monitors)
         return self._solve(f, condition, tsave, stop, flush, monitors, directives)
 
@@ -741,6 +746,10 @@ class gear(trapezoidal):
             self.add_res(field, dtloc)
         self._lastresidual = self.residual
         return
+
+    def _reset_history(self):
+        if hasattr(self, "_lastresidual"):
+            del self._lastresidual
 
 
 
